@@ -275,6 +275,9 @@ pub enum MultiProofVerificationError {
     PathsOutOfOrder,
     /// Extra siblings were provided.
     TooManySiblings,
+    /// The multi-proof is structurally inconsistent: a terminal's depth does not fit its range or
+    /// its own path, too few siblings were provided, or one path is a prefix of another.
+    Malformed,
 }
 
 #[derive(Debug, Clone)]
@@ -479,7 +482,13 @@ fn verify_range<H: NodeHasher>(
         // at a terminal node, 'siblings' will contain all unique
         // nodes, hash them up, and return that
         let terminal_path = &paths[0];
-        let unique_len = terminal_path.depth - start_depth;
+        if terminal_path.depth > terminal_path.terminal.path().len() {
+            return Err(MultiProofVerificationError::Malformed);
+        }
+        let unique_len = match terminal_path.depth.checked_sub(start_depth) {
+            Some(unique_len) if unique_len <= siblings.len() => unique_len,
+            _ => return Err(MultiProofVerificationError::Malformed),
+        };
 
         let node = hash_path::<H>(
             terminal_path.terminal.node::<H>(),
@@ -502,13 +511,26 @@ fn verify_range<H: NodeHasher>(
     let start_path = &paths[0];
     let end_path = &paths[paths.len() - 1];
 
+    if start_path.terminal.path().len() < start_depth
+        || end_path.terminal.path().len() < start_depth
+    {
+        return Err(MultiProofVerificationError::Malformed);
+    }
+
     let common_bits = shared_bits(
         &start_path.terminal.path()[start_depth..],
         &end_path.terminal.path()[start_depth..],
     );
 
     let common_len = start_depth + common_bits;
-    // TODO: if `common_len` == 256 the multi-proof is malformed. error
+    // if either path ends at `common_len` one is a prefix of the other and there is no bit to
+    // bisect on; if there are fewer siblings than common bits the proof is truncated.
+    if common_len >= start_path.terminal.path().len()
+        || common_len >= end_path.terminal.path().len()
+        || common_bits > siblings.len()
+    {
+        return Err(MultiProofVerificationError::Malformed);
+    }
 
     let uncommon_start_len = common_len + 1;
 
